@@ -31,6 +31,57 @@ class Ctx(object):
         return self._memo[key]
 
 
+class Prefixed(object):
+    """report proxy that tags the instances of a second configuration"""
+
+    def __init__(self, rep, tag):
+        self._rep, self._tag = rep, tag
+
+    def __getattr__(self, n):
+        return getattr(self._rep, n)
+
+    def ok(self, rule, key, *a, **k):
+        return self._rep.ok(rule, self._tag + key, *a, **k)
+
+    def violation(self, rule, key, *a, **k):
+        return self._rep.violation(rule, self._tag + key, *a, **k)
+
+    def floor(self, rule, what, got, minimum):
+        return self._rep.floor(rule, self._tag + what, got, 1 if minimum else 0)
+
+
+def thorough(ctx, rep, prop, rules):
+    """thorough tier = quick tier + the same rule instances on the C++ library (yaep.cpp compiles
+    yaep.c as C++ against the C++ containers) + the mutation self-test of this property
+    (analysis only: every `break' mutant must be reported, every `benign' one must stay silent)."""
+    import subprocess
+    from .props import CXX_OK
+    rep.rule("thorough", "the rules that do not depend on the C container idioms are re-run on libyaep++ (same instances must hold); the checker itself is tested on "
+                         "scratch copies of /repo with one seeded breach each (must fire, naming the instance) and behaviour-preserving edits (must stay silent)")
+    px = Prefixed(rep, "[c++] ")
+    for rule in rules:
+        if getattr(rule, "__name__", "") in CXX_OK:
+            try:
+                rule(ctx, px, config="cxx-lib")
+            except AnalysisBroken as e:
+                rep.broke(rule.__name__ + "[c++]", str(e))
+    if os.environ.get("VERIF_REPO"):
+        return   # nested run (we are a mutant ourselves)
+    here = os.path.dirname(os.path.dirname(os.path.abspath(__file__)))
+    p = subprocess.run([sys.executable, os.path.join(here, "selftest", "run.py"), "--prop", prop, "-j", "14"], cwd=here, stdout=subprocess.PIPE, stderr=subprocess.STDOUT,
+                       universal_newlines=True)
+    lines = [l for l in p.stdout.splitlines() if l[:6].strip() in ("ok", "FAIL", "STALE")]
+    good = [l for l in lines if l.startswith("ok")]
+    bad = [l for l in lines if not l.startswith("ok")]
+    for l in good:
+        parts = l.split()
+        rep.ok("selftest", "mutant/" + parts[2], nontrivial=True, sample={"mutant": parts[2], "kind": parts[1], "verdict": "as expected"})
+    for l in bad:
+        rep.broke("selftest", "checker self-test: mutant not handled as expected: " + " ".join(l.split()))
+    if not lines:
+        rep.broke("selftest", "no mutant registered for " + prop)
+
+
 def registry():
     from .props import PROPS
     return PROPS
@@ -57,6 +108,8 @@ def main(argv):
                     rule(ctx, rep)
                 except AnalysisBroken as e:
                     rep.broke(getattr(rule, "__name__", "rule"), str(e))
+            if tier == "thorough":
+                thorough(ctx, rep, prop, props[prop])
     except BuildError as e:
         rep.broke("build", str(e).replace("\n", " | ")[:1500])
     except Exception as e:  # engine bug: never a pass, never a violation
